@@ -550,30 +550,30 @@ theorem truncPoint_ge (r : Bytes) (n j : Nat) (b : UInt8) (hj : j ≤ n) (hb : r
         · exact ih hj'
       · omega
 
-theorem truncReason_length (r : Bytes) : (truncReason r).length ≤ 123 := by
-  unfold truncReason maxCloseReasonLen
+theorem closeReason_length (r : Bytes) : (closeReason r).length ≤ 123 := by
+  unfold closeReason maxCloseReasonLen
   split
   · assumption
   · have := truncPoint_le r 123
     simp only [List.length_take]
     omega
 
-theorem closeReason_length (r : Bytes) : (closeReason r).length ≤ 123 := truncReason_length _
+theorem closeReasonWhole_length (r : Bytes) : (closeReasonWhole r).length ≤ 123 := closeReason_length _
 
-theorem truncReason_prefix (r : Bytes) : truncReason r <+: r := by
-  unfold truncReason
+theorem closeReason_prefix (r : Bytes) : closeReason r <+: r := by
+  unfold closeReason
   split
   · exact List.prefix_refl _
   · exact List.take_prefix _ _
 
 /-- what gws puts on the wire, minus the code, is exactly the prepared reason -/
 theorem closeFrame_reason (res : FwdResult) :
-    closeFrame res = ((websocketError res).1, closeReason (websocketError res).2) := by
+    closeFrame res = ((websocketError res).1, closeReasonWhole (websocketError res).2) := by
   unfold closeFrame gwsClosePayload
-  have hl := closeReason_length (websocketError res).2
+  have hl := closeReasonWhole_length (websocketError res).2
   simp only [List.cons_append, List.nil_append]
   have : (UInt8.ofNat ((websocketError res).1 / 256) :: UInt8.ofNat ((websocketError res).1 % 256) ::
-      closeReason (websocketError res).2).length ≤ 125 := by simp; omega
+      closeReasonWhole (websocketError res).2).length ≤ 125 := by simp; omega
   rw [List.take_of_length_le this]
   simp
 
@@ -581,10 +581,10 @@ theorem reasonPrefix_short : ∀ c, c ≤ 16 → (reasonPrefix c).length ≤ 25 
 
 /-- the prefix `code X: ` survives the cut when some byte among 25..123 of the reason starts a rune
     (always the case for valid UTF-8, where at most 3 continuation bytes follow one another) -/
-theorem truncReason_keeps_prefix (p m : Bytes) (hp : p.length ≤ 25)
+theorem closeReason_keeps_prefix (p m : Bytes) (hp : p.length ≤ 25)
     (hstart : 123 < (p ++ m).length → ∃ j b, 25 ≤ j ∧ j ≤ 123 ∧ (p ++ m)[j]? = some b ∧ runeStart b = true) :
-    p <+: truncReason (p ++ m) := by
-  unfold truncReason maxCloseReasonLen
+    p <+: closeReason (p ++ m) := by
+  unfold closeReason maxCloseReasonLen
   split
   · exact List.prefix_append _ _
   · rename_i hlen
